@@ -176,6 +176,10 @@ def run(cx):
     # own side advertised (asymmetric configurations)
     from props.C07 import inst_config_mirror
     inst_config_mirror(cx, "C05.z")
+    # the flush credit is refilled with the time that really passed (a clock difference cut to whole milliseconds starves
+    # an endpoint that steps more often than that, on an ideal link)
+    from props.C13 import inst_credit_refill
+    inst_credit_refill(cx, "C05.A")
     # both ends round the allocation limit alike; the per-frame datagram count fits its 7-bit wire field
     from props.C06 import inst_sibling_accounting
     inst_sibling_accounting(cx, "C05.q")
